@@ -1,5 +1,5 @@
 (* C12 - strict mode fails fast, lenient mode skips exactly the failing packets.  Statements only (WorldProofs.v). *)
-From RU Require Import Base Types Defs BitReader World WorldProofs Layout LayoutProofs Run FrameProofs C12Bytes.
+From RU Require Import Base Types Defs BitReader World WorldProofs Layout LayoutProofs Run FrameProofs C12Bytes C12Example.
 
 (* strict: the result is the fold over the prefix before the first failing packet, and the error is that packet's *)
 Theorem C12_strict_stops_at_first_failure : forall St ps w w1 e,
@@ -51,3 +51,12 @@ Theorem C12_lenient_bytes_is_strict_on_survivor_bytes : forall St ps,
   snd (Run.run_lenient St (enc_all ps)) = None.
 Proof. exact lenient_bytes_is_strict_on_survivor_bytes. Qed.
 Print Assumptions C12_lenient_bytes_is_strict_on_survivor_bytes.
+
+(* inhabited: a world with entity 7 and three update packets of which the middle one names an entity that does not exist - the hypothesis of
+   C12_lenient_is_strict_on_survivors holds, the middle packet fails (strict: KeyError), two packets survive, and the two runs agree *)
+Example C12_example_history :
+  (forall w0 p w1 e, In p x_ps -> step x_St w0 p = (w1, Some e) -> w1 = w0) /\
+  length (survivors x_St x_w0 x_ps) = 2%nat /\
+  snd (play_strict x_St x_w0 x_ps) = Some EKey /\
+  play_strict x_St x_w0 (survivors x_St x_w0 x_ps) = (play_lenient x_St x_w0 x_ps, None).
+Proof. exact c12_example. Qed.
